@@ -28,11 +28,16 @@ CHECKS = {
             "pkg": BS, "funcs": ["VerifC13Snapshot"],
             "params": {"quick": {"T": 2, "SIZES": 1048576}, "thorough": {"T": 3, "SIZES": 1048576}},
             "covers": {"VerifC13Snapshot": ["saved", "loaded", "save-refused"]},
+        }, {
+            "pkg": BS, "funcs": ["VerifC13Concurrent"],
+            "params": {"quick": {"T": 2}, "thorough": {"T": 4}},
+            "covers": {"VerifC13Concurrent": ["saved", "loaded", "grew-during-save"]},
         }],
         "assumptions": [
             "log shapes: empty, single-writer chain of T entries, two writers with a replicated entry (so the replicator's task table is non-empty); the real SaveSnapshot, GetQueue, LoadFromSnapshot, NewFromJSON, Join run over an in-memory Unixfs and cache",
             "size clause: every encoded header / entry / queue document has a SYMBOLIC byte length in [2, 2^20]; the snapshot file is a rope of segments with symbolic lengths, length prefixes are computed by the real uint16 conversions and PutUint16/Uint16 on symbolic values; a read at a symbolic offset asks the solver whether offset and length are forced to coincide with a written segment, otherwise the bytes read are unconstrained",
             "a counterexample of the size clause is replayed natively with payloads that are really that large",
+            "replication / writes in progress (VerifC13Concurrent): a local write, or the Sync whose join ends a replication, is started at ANY visible operation of SaveSnapshot and runs until it blocks; the snapshot must load, and reload to a log between the one held when the save started and the one held when it ended",
         ],
         "outside": ["unixfs chunking", "documents longer than 1 MiB", "JSON byte content", "snapshots taken while fetches are pending (the queue is non-empty): the reloaded log is then the saved one plus whatever the resumed fetches add"],
     },
@@ -121,10 +126,15 @@ CHECKS = {
         "groups": [{
             "pkg": BS, "funcs": ["VerifC04Tampered"],
             "covers": {"VerifC04Tampered": ["as-head", "as-ancestor", "codec-alias"]},
+        }, {
+            "pkg": BS, "funcs": ["VerifC04ForeignChain"],
+            "params": {"quick": {"F": 3}, "thorough": {"F": 5}},
+            "covers": {"VerifC04ForeignChain": ["via-refs", "via-next", "restarted", "relayed"]},
         }],
         "assumptions": [
             "a valid entry of an authorised writer, one field of its wire form replaced (payload by a symbolic byte, clock time by ANY other 64-bit value, clock id, next, refs, key, signature, log id, only the claimed address, or the claimed address replaced by an alias with the same multihash digest and another codec), keeping the claimed address or re-addressed; delivered as an announced head or (re-addressed) as the ancestor of a valid head",
             "content addressing = perfect hash of every wire field except the hash; ancestors are fetched by hash, hence their content is whatever hashes to it; perfect symbolic signatures over the hashable form computed by the real ToHashable/toBuffer",
+            "foreign chain: a valid entry of a writer of A links (refs / next / both) to the head of a chain of 1..F entries validly written for another database; delivered as an announced head, then either nothing, or restart + Load from the replica's own disk (the whole ancestry is fetched as ONE log and filtered by ownEntriesOnly), or relayed to a fresh replica; oracle: nothing listed, no head and nothing served carries another log id",
         ],
         "outside": ["hash collisions", "CBOR canonicalisation", "mutations of the identity block only (the signature does not cover it: that is C03's known finding)"],
     },
@@ -225,6 +235,7 @@ CHECKS = {
             "clause (c) legacy channel API: the real events.EventEmitter (Emit, Subscribe, handleSubscriber with its two buffering goroutines, real container/list, sync.Cond) over the stub bus; N events (N > channel capacity 16); every interleaving of emitter, the two goroutines and the subscriber with at most P preemptions (switch or stall) at visible operations; plus a subscriber that stalls until everything else is blocked and then drains N events",
             "clause (a) under concurrency: a key-value store (its view is a separate map, not an alias of the log) replicates a batch of N remote entries through the real Sync path while a local Put starts at ANY visible operation (lock, unlock, channel operation, go, cache/block write) of any goroutine involved and runs until it blocks; the bus hook queries the store with Get on every EventWrite / EventReplicated",
             "clause (a) state-before-event: every emission on the store's bus is observed synchronously in the emitting goroutine (a wrapper around the bus); on EventWrite the log and the view already hold the entry and there is exactly one write event per successful write; on EventReplicated all announced entries are in the log and the merged heads are already persisted",
+            "slow reader of replicated events: every emitted EventReplicated is retained and read only at the end of the history; it must still announce exactly the batch it announced when emitted, and every merged remote entry is announced by exactly one event",
         ],
         "outside": ["clause (b): ordering/losslessness of the real libp2p eventbus (the stub bus mirrors its blocking per-sink FIFO)", "clause (c) beyond P preemptions / N events; data races below visible-operation granularity"],
     },
@@ -260,15 +271,18 @@ CHECKS = {
     "C15": {
         "groups": [{
             "pkg": BS, "funcs": ["VerifC15Load"],
-            "params": {"quick": {"T": 3}, "thorough": {"T": 5}},
-            "covers": {"VerifC15Load": ["loaded"]},
+            "params": {"quick": {"T": 3, "P": 1}, "thorough": {"T": 5, "P": 2}},
+            "max_paths": {"quick": 60000, "thorough": 600000},
+            "timeout": {"quick": "10m", "thorough": "60m"},
+            "covers": {"VerifC15Load": ["loaded", "stale-remote-heads", "schedules-explored"]},
         }],
         "assumptions": [
-            "persisted log built by real AddOperation calls (single-writer chain of T entries) or by two writers with a real Sync (local + remote cached heads), then Close and a fresh store over the same cache and block store",
+            "persisted log built by real AddOperation calls (single-writer chain of T entries), by two writers with a real Sync (local + remote cached heads), or by replicating another writer's chain and then writing again (stale cached remote heads below a newer local head); then Close and a fresh store over the same cache and block store",
+            "Load's per-head goroutines run under every schedule with at most P preemptions (switch or stall) at visible operations",
             "limit = ANY 64-bit integer (symbolic), passed per call or through MaxHistory (then the call argument is -1 or 0)",
             "the real ipfs-log fetcher, NewFromEntryHash, Join (incl. its size trimming) and Values are interpreted; IPFS is a block-store stub",
         ],
-        "outside": ["T beyond the bound", "schedules of the fetcher's worker goroutines other than run-to-block FIFO"],
+        "outside": ["T beyond the bound", "more than P preemptions"],
     },
     "C17": {
         "groups": [{
